@@ -155,6 +155,7 @@ func (e *GRPCEndpointExpr) Validate() error {
 	// error if payload, result, and error type define attribute of Any type
 	// which is unsupported.
 	verr.Merge(e.hasAnyType(e.MethodExpr.Payload, "Payload"))
+	verr.Merge(e.hasAnyType(e.MethodExpr.StreamingPayload, "StreamingPayload"))
 	verr.Merge(e.hasAnyType(e.MethodExpr.Result, "Result"))
 	for _, er := range e.MethodExpr.Errors {
 		verr.Merge(e.hasAnyType(er.AttributeExpr, fmt.Sprintf("Error %q", er.Name)))
@@ -573,6 +574,12 @@ func (e *GRPCEndpointExpr) hasAnyType(a *AttributeExpr, typ string, seen ...map[
 		}
 		verr.Merge(e.hasAnyType(actual.ElemType, typ, seen...))
 	case *Map:
+		// protocol buffer map keys are integral, boolean or string scalars
+		switch actual.KeyType.Type.Kind() {
+		case BooleanKind, IntKind, Int32Kind, Int64Kind, UIntKind, UInt32Kind, UInt64Kind, StringKind, AnyKind:
+		default:
+			verr.Add(e, "Map key type %s is not supported in gRPC, protocol buffer map keys must be integer, boolean or string types", actual.KeyType.Type.Name())
+		}
 		if IsPrimitive(actual.KeyType.Type) {
 			if actual.KeyType.Type == Any {
 				verr.Add(e, "Map key type is Any type which is not supported in gRPC")
